@@ -60,6 +60,22 @@ func verifDir() string {
 	return "/verif"
 }
 
+// evidenceDir / replayDir can be redirected (seeded-defect runs must not
+// overwrite the evidence of the unchanged tree).
+func evidenceDir() string {
+	if d := os.Getenv("VERIF_EVIDENCE_DIR"); d != "" {
+		return d
+	}
+	return filepath.Join(verifDir(), "evidence")
+}
+
+func replayDir() string {
+	if d := os.Getenv("VERIF_REPLAY_DIR"); d != "" {
+		return d
+	}
+	return filepath.Join(verifDir(), "replay")
+}
+
 func envSeed() uint64 {
 	if s := os.Getenv("VERIF_SEED"); s != "" {
 		if v, err := strconv.ParseUint(s, 10, 64); err == nil {
@@ -323,7 +339,7 @@ func runCoordinator(args []string) int {
 	if nw < 1 {
 		nw = 1
 	}
-	dir := filepath.Join(verifDir(), ".work", *prop+"-"+*tier)
+	dir := filepath.Join(verifDir(), ".work", *prop+"-"+*tier+os.Getenv("VERIF_WORK_SUFFIX"))
 	os.RemoveAll(dir)
 	os.MkdirAll(dir, 0o755)
 	self, _ := os.Executable()
@@ -523,7 +539,7 @@ func runCoordinator(args []string) int {
 	}
 	sort.Strings(order)
 	exit := 0
-	os.MkdirAll(filepath.Join(verifDir(), "replay"), 0o755)
+	os.MkdirAll(replayDir(), 0o755)
 	harnessBug := false
 	clusterSummary := []map[string]any{}
 	for i, key := range order {
@@ -531,7 +547,7 @@ func runCoordinator(args []string) int {
 		if f.Oracle == "uncaught-panic-in-harness" {
 			harnessBug = true
 		}
-		path := filepath.Join(verifDir(), "replay", fmt.Sprintf("%s-%016x.json", *prop, rt.HashStr(key)))
+		path := filepath.Join(replayDir(), fmt.Sprintf("%s-%016x.json", *prop, rt.HashStr(key)))
 		b, _ := json.MarshalIndent(f, "", " ")
 		os.WriteFile(path, b, 0o644)
 		clusterSummary = append(clusterSummary, map[string]any{"oracle": f.Oracle, "cluster": f.Cluster, "count": total.ClusterCount[key], "replay": path})
@@ -833,6 +849,6 @@ func writeEvidence(chk rt.Check, prop, tier string, seed uint64, total *rt.Rec, 
 		"violations":  total.Counters["violations"],
 	}
 	b, _ := json.MarshalIndent(ev, "", " ")
-	os.MkdirAll(filepath.Join(verifDir(), "evidence"), 0o755)
-	os.WriteFile(filepath.Join(verifDir(), "evidence", prop+".json"), b, 0o644)
+	os.MkdirAll(evidenceDir(), 0o755)
+	os.WriteFile(filepath.Join(evidenceDir(), prop+".json"), b, 0o644)
 }
